@@ -215,7 +215,8 @@ def run_check(H, tier, seed, workers=None):
     validated = 0
     for r in ok:
         for v in r['validate']:
-            cctx, outcome = run_concrete(H.body, r['cfg'], v['model'])
+            cctx, outcome = run_concrete(H.body, r['cfg'], v['model'],
+                                         stop_on_fail=False)
             got = [[l, core._plain(x)] for l, x in cctx.observations]
             exp = v['observations']
             if outcome != 'completed' or not _obs_equal(got, exp):
